@@ -81,3 +81,9 @@ Definition a64_forwarded (callee : bytes -> Z) : a64_regs :=
 Definition a64_walk (iter : list (bytes * option Z) -> list (bytes * option Z)) (written : list (bytes * option Z))
     (callee : bytes -> Z) : a64_regs :=
   walk_cfi bytes_eqb bytes_ltb a64_step iter written (a64_forwarded callee).
+
+(* ---- MultiSymbolProvider::stats (minidump-unwind/src/symbols/mod.rs): `for p in providers { result.extend(p.stats()) }`:
+   the providers in Vec order, every provider's map in ITS iteration order ([iters]: one permutation per provider),
+   every entry inserted into the result (a later one replaces an earlier one with the same leaf name) *)
+Definition merge_stats {K V} (keqb : K -> K -> bool) (maps : list (list (K * V))) : list (K * V) :=
+  fold_left (fun m r => map_insert keqb (fst r) (snd r) m) (concat maps) [].
